@@ -7,9 +7,8 @@
    (Gen/PathShape.v).  Proved: one Path value answers every document as a fresh
    Path would, whatever documents it met before (extractFromPath evaluates on a
    copy; without the copy the statement is false); the answer is the reference
-   evaluation, in document order, for every path without recursive descent on
-   every document whose values have the kinds the selectors expect; outside
-   that class lie exactly the three recorded deviations, each with a witness.
+   evaluation, in document order, for EVERY path, recursive descent included, on
+   EVERY document (four deviations found on the way were repaired).
    Path.Unmarshal / Path.Get and concurrent use are compared by the harness. *)
 From Coq Require Import NArith ZArith List Bool.
 From GJ Require Import Base.Bytes Spec.Json Model.Enc Model.Path Proofs.PathP Gen.PathShape Model.PathEval Proofs.PathEvalP.
@@ -37,53 +36,52 @@ Example C20_ex2 : build [36; 91; 39; 97; 39] = BErr.   (* $['a'  : ends at the c
 Proof. vm_compute. reflexivity. Qed.
 Example C20_ex3 : build [36; 46; 46; 97] = BOk [NRec [97]] false false.
 Proof. vm_compute. reflexivity. Qed.
-Example C20_ex4 : print_path [NRec [97]] = [46; 46; 97; 46; 97].
+Example C20_ex4 : print_path [NRec [97]] = [46; 46; 97].
 Proof. vm_compute. reflexivity. Qed.
 
 (* ---- evaluation ---- *)
 (* what the translator read from path.go, map.go, slice.go, interface.go and decode.go is what the model evaluates with *)
-Theorem C20_source_shapes : path_node_sems = std_sems /\ extract_on_copy = true /\ path_loops_as_modelled = true.
+Theorem C20_source_shapes : path_node_sems = std_sems /\ extract_on_copy = true /\ path_loops_as_modelled = true /\ scalar_selects_nothing = true.
 Proof. repeat split; reflexivity. Qed.
 
 (* purity: for every Path, every sequence of earlier documents (answered or failed) and every next document *)
 Theorem C20_extract_pure : forall nodes before doc,
-  last (run path_node_sems extract_on_copy (is_root nodes) (expand nodes) (before ++ [doc])) None
-  = fst (extract_call path_node_sems extract_on_copy (is_root nodes) (expand nodes) doc).
+  last (run path_node_sems scalar_selects_nothing extract_on_copy (is_root nodes) (expand nodes) (before ++ [doc])) None
+  = fst (extract_call path_node_sems scalar_selects_nothing extract_on_copy (is_root nodes) (expand nodes) doc).
 Proof. intros. rewrite (proj1 (proj2 C20_source_shapes)). apply extract_pure. Qed.
 Print Assumptions C20_extract_pure.
 
 (* the repaired defect: evaluated on the caller's Path, a failed descent leaves the cursor moved *)
 Theorem C20_shared_cursor_refuted :
   exists nodes before doc,
-    last (run path_node_sems false (is_root nodes) (expand nodes) (before ++ [doc])) None
-    <> fst (extract_call path_node_sems false (is_root nodes) (expand nodes) doc).
+    last (run old_sems false false (is_root nodes) (expand nodes) (before ++ [doc])) None
+    <> fst (extract_call old_sems false false (is_root nodes) (expand nodes) doc).
 Proof. exists w_path, [w_bad], w_good. exact extract_shared_cursor_refuted. Qed.
 
-(* correctness: child, index and wildcard selectors, quoted or not, in document order *)
-Theorem C20_extract_is_reference : forall nodes doc, fits nodes doc = true ->
-  fst (extract_call path_node_sems extract_on_copy (is_root nodes) (expand nodes) doc)
+(* correctness: for EVERY path (child, index, wildcard and recursive-descent selectors, quoted or not) and EVERY
+   document, Extract is the reference evaluation, in document order *)
+Theorem C20_extract_is_reference : forall nodes doc,
+  fst (extract_call path_node_sems scalar_selects_nothing extract_on_copy (is_root nodes) (expand nodes) doc)
   = Some (map RTree (ref_eval nodes doc)).
-Proof. intros. rewrite (proj1 C20_source_shapes). apply extract_ref. assumption. Qed.
+Proof.
+  intros nodes doc. rewrite (proj1 C20_source_shapes), (proj2 (proj2 (proj2 C20_source_shapes))). apply extract_ref.
+Qed.
 Print Assumptions C20_extract_is_reference.
 
-(* the three open findings are outside `fits` and really deviate *)
+(* four deviations were found and repaired; two of them as they were, refuted for the old code: a selector applied to a
+   scalar gave the scalar itself, a selector applied to an array or object of the other kind was an error (the other
+   two: recursive descent did not search the members it skipped, and gave x.n instead of x for a member x called n) *)
 Theorem C20_selector_on_scalar_refuted :
-  fst (ev std_sems (JLeaf (TNum [49])) (expand [NSel [120]])) <> Some (map RTree (ref_eval [NSel [120]] (JLeaf (TNum [49])))).
+  fst (ev std_sems false (JLeaf (TNum [49])) (expand [NSel [120]])) <> Some (map RTree (ref_eval [NSel [120]] (JLeaf (TNum [49])))).
 Proof. exact selector_on_scalar_refuted. Qed.
-Theorem C20_recursive_descent_shallow_refuted :
-  let d := JObj [([98], false, JObj [([97], false, JLeaf (TNum [49]))])] in
-  fst (ev std_sems d (expand [NRec [97]])) <> Some (map RTree (ref_eval [NRec [97]] d)).
-Proof. exact recursive_descent_shallow_refuted. Qed.
-Theorem C20_wildcard_then_selector_refuted :
+Theorem C20_kind_mismatch_was_an_error_refuted :
   let d := JArr [JObj [([97], false, JLeaf (TNum [49]))]; JArr [JLeaf (TNum [50])]] in
-  fst (ev std_sems d (expand [NAll; NSel [97]])) = None /\ ref_eval [NAll; NSel [97]] d = [JLeaf (TNum [49])].
+  fst (ev old_sems false d (expand [NAll; NSel [97]])) = None /\ ref_eval [NAll; NSel [97]] d = [JLeaf (TNum [49])].
 Proof. exact wildcard_then_selector_refuted. Qed.
-
-(* the fourth one, found by the thorough tier through this model: a repeated key whose first member is of another kind *)
-Theorem C20_error_where_reference_selects_refuted :
-  let d := JObj [([99], false, JObj [([120], false, JLeaf (TNum [49]))]); ([99], false, JArr [JLeaf (TNum [49]); JLeaf TTrue])] in
-  fst (ev std_sems d (expand [NSel [99]; NIdx 1])) = None /\ ref_eval [NSel [99]; NIdx 1] d = [JLeaf TTrue].
-Proof. vm_compute. split; reflexivity. Qed.
+Example C20_recursive_descent_ex :
+  let d := JObj [([98], false, JObj [([97], false, JObj [([97], false, JLeaf (TNum [49]))])]); ([97], false, JLeaf TTrue)] in
+  extract_text [36; 46; 46; 97] d = [79; 123; 34; 97; 34; 58; 49; 125; 10; 49; 10; 116; 114; 117; 101; 10].
+Proof. vm_compute. reflexivity. Qed.
 
 (* non-vacuity: $.b.c[*].a on {"a":1,"b":{"a":2,"c":[{"a":3},{"a":4,"b":[5,6]}]}} fits and selects 3 and 4;
    $['b'].c[1].b[0] selects 5 *)
@@ -93,7 +91,6 @@ Definition C20_doc : jv :=
                             ([99], false, JArr [JObj [([97], false, JLeaf (TNum [51]))];
                                                 JObj [([97], false, JLeaf (TNum [52])); ([98], false, JArr [JLeaf (TNum [53]); JLeaf (TNum [54])])]])])].
 Example C20_ex5 :
-  fits [NSel [98]; NSel [99]; NAll; NSel [97]] C20_doc = true /\
   extract_text [36; 46; 98; 46; 99; 91; 42; 93; 46; 97] C20_doc = [79; 51; 10; 52; 10] /\
   extract_text [36; 91; 39; 98; 39; 93; 46; 99; 91; 49; 93; 46; 98; 91; 48; 93] C20_doc = [79; 53; 10].
 Proof. vm_compute. repeat split; reflexivity. Qed.
